@@ -422,8 +422,8 @@ def run_error(ctx, rng, pool, root, index=0):
     kind = ERROR_KINDS[index % len(ERROR_KINDS)]
     out_fmt = rng.choice(('p8', 'png'))
     out = os.path.join(root, 'eout.p8' if out_fmt == 'p8' else 'eout.p8.png')
-    for f in (os.path.join(root, 'eout.p8'), os.path.join(root, 'eout.p8.png'), os.path.join(root, 'eout.txt')):
-        if os.path.exists(f):
+    for f in [os.path.join(root, n) for n in os.listdir(root) if n.startswith('eout')]:
+        if os.path.isfile(f):
             os.remove(f)
     exists = rng.random() < 0.6
     if kind == 'source_is_absent_out':
@@ -487,7 +487,9 @@ def run_error(ctx, rng, pool, root, index=0):
         exists = True
         argv += ['--' + sec, good]
     else:
-        out = os.path.join(root, 'eout.txt')
+        # an output name that is neither a .p8 nor a .p8.png name: another extension, none at all, a picture, a backup name
+        out = os.path.join(root, ('eout.txt', 'eout', 'eout.png', 'eout.lua', 'eout.p8.bak', 'eout.p8png')[(index // len(ERROR_KINDS)) % 6])
+        ctx.feature('bad_out_name:' + os.path.basename(out))
         argv[2] = out
         before = None
         exists = False
